@@ -194,6 +194,7 @@ pub fn two_party(case: &str, seed: u64, k: &Knobs, content: Vec<u8>) -> Scenario
         seq_start: None,
         preset_ids: vec![],
         forget_puts: vec![],
+        stall_after: vec![],
     }
 }
 
